@@ -100,8 +100,9 @@ def perform (r : R) (c : Coord) (o : Option Out) : R :=
 def isPressOf (c : Coord) (e : Ev) : Bool := e == .press c
 def isReleaseOf (c : Coord) (e : Ev) : Bool := e == .release c
 
-/-- the dance ends with `n` taps counted.  `evictAll` = what the code under test does instead of
-the statement: every queued press of the key is dropped, counted or not. -/
+/-- the dance ends with `n` taps counted.  `evictAll` = what the pinned commit did instead of the
+statement (every queued press of the key dropped, counted or not): kept so that a regression to it
+is named `lost-press` in the verdict. -/
 def decide (evictAll : Bool) (d : Dance) (osd : Nat) (r : R) (n : Nat) : R :=
   let nPress := (r.q.filter (isPressOf d.coord)).length
   let q := if evictAll then r.q.filter (fun e => !isPressOf d.coord e) else removeFirstN (isPressOf d.coord) (n - 1) r.q
@@ -184,7 +185,9 @@ def oracle (l : Layout) (hist : List HEv) (impl : String) : String :=
     if impl.startsWith "crash" then
       (if d.acts.isEmpty then "fail crash-empty-list: " else "fail crash: ") ++ (impl.take 80).toString
     else
-    if d.acts.isEmpty || d.T == 0 then "skip" else
+    -- `parse_tap_dance` must not accept an empty list or a zero timeout (Lean: `Accepted`)
+    if d.acts.isEmpty then "fail accepted-empty-list: the parser accepted a tap-dance with no actions" else
+    if d.T == 0 then "fail accepted-zero-timeout: the parser accepted a tap-dance with timeout 0" else
     match Trace.parse impl with
     | none => "skip"
     | some items =>
